@@ -3,7 +3,7 @@
    The theorems are about the functional model (greatest fixpoints of the two step conditions, written as the
    property states them); the LTS engine that libvata uses to compute them is the subject of C16. *)
 From Coq Require Import List NArith Bool.
-From V Require Import Gfp Sem Prod Lang LtsSimDefs LtsSimProofs TaSimDefs TaSimProofs TaEncDefs TaEncProofs.
+From V Require Import Gfp Sem Prod Lang LtsSimDefs LtsSimProofs TaSimDefs TaSimProofs TaEncDefs TaEncProofs TaEncPart.
 
 (* downward: the result satisfies the step condition, lies in 0..n-1, and contains every such relation *)
 Theorem C04_down_sim_greatest : forall A n,
@@ -57,16 +57,44 @@ Theorem C04_encode_down_unranked_refuted :
   exists X A n NN, states_below A n /\ down_ok X A n NN /\
     In (d_idx X 0%N, d_idx X 1%N) (lts_sim_default (translate_down X A) NN) /\ ~ In (0%N, 1%N) (down_sim A n).
 Proof. exact encode_down_unranked_refuted. Qed.
-(* TranslateUpward (with the parent of an environment translated once, i.e. after the fix of D3): the greatest simulation
-   of the encoded LTS inside the initial relation "final -> final on states, leaf only with itself, environments with
-   equal siblings/position/symbol", read back through the state index, is the greatest upward simulation.
-   PARTIAL in one respect: the initial relation is the one *induced* by the partition and block relation that
-   TranslateUpward builds (up_node_init); that the concrete lists up_partition / up_block_rel of TaEncDefs.v induce
-   exactly this relation is proved in TaEncProofs.v only if C04_up_partition_induces is present below. *)
+(* TranslateUpward (with the parent of an environment translated once, i.e. after the fix of D3; environments keyed by
+   siblings, position, symbol AND parent, which is what libstdc++'s cached hash codes make of the code, see D4):
+   for every valid index (state index a bijection of 0..n-1, symbol index injective below nsym, environment nodes
+   injective in n+1..NN-1, leaf node n) the greatest simulation of the encoded LTS inside the initial relation given by
+   the partition and block relation the function builds (final / non-final / leaf / one block per class of environments
+   with equal siblings, position and symbol; non-final below final), read back through the state index, is the
+   greatest upward simulation.  The model coincides with the code only for automata without useless states (the code
+   sizes its tables by the number of states owning rules); the theorem itself needs states below n only. *)
+Theorem C04_encode_up_correct : forall X A n NN, states_below A n -> up_ok X A n ->
+  (forall E, In E (all_envs X A) -> (u_eidx X E < N.of_nat NN)%N) -> n < NN ->
+  forall q r, (q < N.of_nat n)%N -> (r < N.of_nat n)%N ->
+    (In (q, r) (up_sim A n) <->
+     In (u_idx X q, u_idx X r) (lts_sim (translate_up X n A) NN (up_partition X n A) (up_block_rel X n A))).
+Proof. exact encode_up_correct. Qed.
+(* its two halves: correctness w.r.t. the induced initial relation, and the concrete lists induce that relation *)
 Theorem C04_encode_up_correct_partial : forall X A n, states_below A n -> up_ok X A n ->
   forall q r, (q < N.of_nat n)%N -> (r < N.of_nat n)%N ->
     (In (q, r) (up_sim A n) <-> In (u_idx X q, u_idx X r) (up_lts_sim X n A)).
 Proof. exact encode_up_correct_partial. Qed.
+Theorem C04_up_partition_induces : forall X A n NN, up_ok X A n ->
+  (forall E, In E (all_envs X A) -> (u_eidx X E < N.of_nat NN)%N) -> n < NN ->
+  forall x y, In (x, y) (init_rel NN (up_partition X n A) (up_block_rel X n A)) <-> In (x, y) (up_node_init X n A).
+Proof. exact up_partition_induces. Qed.
+(* D3 (fixed by 0f312bed): the historical encoding translated an environment's parent twice and is refuted *)
+Theorem C04_encode_up_old_refuted :
+  exists X A n, states_below A n /\ trimmed_ok A = true /\ up_ok X A n /\
+    exists q r, (q < N.of_nat n)%N /\ (r < N.of_nat n)%N /\
+      In (u_idx X q, u_idx X r) (up_lts_sim_old X n A) /\ ~ In (q, r) (up_sim A n) /\
+      (In (u_idx X q, u_idx X r) (up_lts_sim X n A) <-> In (q, r) (up_sim A n)).
+Proof. exact encode_up_old_refuted. Qed.
+(* the index-validity hypotheses are decidable and satisfiable (canonical indices on the example automaton) *)
+Theorem C04_down_ok_decidable : forall X A n NN, down_ok_b X A n NN = true -> down_ok X A n NN.
+Proof. exact down_ok_b_sound. Qed.
+Theorem C04_up_ok_decidable : forall X A n, up_ok_b X A n = true -> up_ok X A n.
+Proof. exact up_ok_b_sound. Qed.
+Example C04_example_encodings_valid :
+  states_below ex_ta 4 /\ ranked ex_ta /\ down_ok (canon_dix ex_ta 4) ex_ta 4 9 /\ up_ok (canon_uix ex_ta 4) ex_ta 4.
+Proof. exact ex_enc_valid. Qed.
 (* the hypotheses are satisfiable and the results are not trivial *)
 Example C04_example_valid : dense_ok ex_ta 4 = true /\ trimmed_ok ex_ta = true /\ ranked_ok ex_ta = true /\
   is_perm 4 (cons 2 (cons 0 (cons 3 (cons 1 nil))))%N = true.
@@ -91,7 +119,13 @@ Print Assumptions C04_gate_up.
 Print Assumptions C04_gate_equivariant.
 Print Assumptions C04_encode_down_correct.
 Print Assumptions C04_encode_down_unranked_refuted.
+Print Assumptions C04_encode_up_correct.
 Print Assumptions C04_encode_up_correct_partial.
+Print Assumptions C04_up_partition_induces.
+Print Assumptions C04_encode_up_old_refuted.
+Print Assumptions C04_down_ok_decidable.
+Print Assumptions C04_up_ok_decidable.
+Print Assumptions C04_example_encodings_valid.
 Print Assumptions C04_example_valid.
 Print Assumptions C04_example_down.
 Print Assumptions C04_example_up.
